@@ -228,7 +228,23 @@ pub fn gen_c16(rng: &mut Rng, thorough: bool) -> Vec<Tagged> {
         base.connect = vec![];
         let ncalls = rng.range(1, 4);
         let calls: Vec<(usize, usize)> = (0..ncalls).map(|_| { let b = rng.below(depth + 1); let a = rng.below(depth + 1); (a, b) }).collect();
-        out.push(("connect-seq".into(), Case::ConnectSeq(base, calls)));
+        out.push(("connect-seq".into(), Case::ConnectSeq(base.clone(), calls)));
+        // structured sequences: a valid connection followed by a second one into the SAME target
+        // (other source / same source), a chain, and a connection whose source is an earlier target
+        if depth >= 2 {
+            let b = rng.range(1, depth - 1);
+            let a = rng.below(b + 1);
+            let a2 = (a + 1 + rng.below(b.max(1))) % (b + 1);
+            let seqs: Vec<(&str, Vec<(usize, usize)>)> = vec![
+                ("connect-seq-same-target-other-source", vec![(a, b), (a2, b)]),
+                ("connect-seq-same-pair-twice", vec![(a, b), (a, b)]),
+                ("connect-seq-source-is-earlier-target", vec![(a, b), (b, (b + 1).min(depth - 1))]),
+                ("connect-seq-third-after-rejected", vec![(a, b), (a2, b), (0, depth - 1)]),
+            ];
+            for (tag, calls) in seqs {
+                out.push((tag.into(), Case::ConnectSeq(base.clone(), calls)));
+            }
+        }
     }
     out
 }
